@@ -128,11 +128,20 @@ func (d *DFPNSolver) Prove(g *tak.Position) (ProofResult, DFPNStats) {
 
 	d.stack = nil
 	start := time.Now()
-	entry, work := d.mid(g, proofNumbers{phi: INFINITY / 2, delta: INFINITY / 2}, entry{
+	root := entry{
 		hash:   g.Hash(),
 		work:   0,
 		bounds: proofNumbers{phi: 1, delta: 1},
-	})
+	}
+	var work uint64
+	if over, who := g.GameOver(); over {
+		// mid() only tests the children it generates; a root whose
+		// game is already over is decided here.
+		root.bounds = d.terminalBounds(g, who)
+	} else {
+		root, work = d.mid(g, proofNumbers{phi: INFINITY / 2, delta: INFINITY / 2}, root)
+	}
+	entry := root
 	d.stats.Work = work
 	duration := time.Since(start)
 	// phi and delta are relative to the side to move at the root; the
